@@ -5,6 +5,8 @@ BINARIES = {
     "jsondb": {"pkg": "./pkg/storage/jsondb"},
     "llm": {"pkg": "./internal/llm"},
     "cli": {"pkg": "./internal/cli"},
+    "pebbledb_race": {"pkg": "./pkg/storage/pebbledb", "race": True},
+    "jsondb_race": {"pkg": "./pkg/storage/jsondb", "race": True},
 }
 
 STORE_STUB = {
@@ -15,6 +17,23 @@ STORE_STUB = {
 }
 
 CHECKS = {
+    "C11": {
+        "level": "exploration",
+        "budget": {"quick": 45, "thorough": 900},
+        "rule": ("one evaluation = one simulated schedule: 1-3 reader tasks (ScanTopology, ScanTopologyExact, ScanCandidates, ScanBatch on hot topologies) and "
+                 "1-2 writer tasks (flip signatures X/Y between versions with different hashes, delete/re-add, batch update both, rebuild indexes, "
+                 "false-positive mark, threshold/tolerance changes) interleaved by the tape-driven scheduler at every Pebble call and every lock operation of "
+                 "the store; after every step the committed key space is dumped; every scan must equal the sequential specification on one state inside its "
+                 "window. Non-trivial = at least one scan whose window contains a commit; distinct = distinct (programs, schedule trace)."),
+        "jobs": [
+            {"engine": "storesim-concurrent", "bin": "pebbledb", "test": "TestVerifC11", "cfg": {}, "weight": 10},
+            {"engine": "storestress", "bin": "pebbledb_race", "test": "TestVerifC11Stress", "cfg": {}, "weight": 3, "race": True, "cpu": 4},
+            {"engine": "jsonstress", "bin": "jsondb_race", "test": "TestVerifC11JSONStress", "cfg": {}, "weight": 3, "race": True, "cpu": 4},
+        ],
+        "assumptions": ["the reference is the committed key-value state (between the two commits of an index rebuild the committed database really has no indexes)",
+                        "goroutines inside Pebble (flush/compaction/WAL) are not scheduled by the simulator; they do not change logical state"],
+        "real_vs_stub": dict(STORE_STUB, scheduling="simulated for reader/writer tasks (R3 yields, R4 modelled locks); Pebble-internal goroutines real"),
+    },
     "C13": {
         "level": "exploration",
         "budget": {"quick": 40, "thorough": 900},
@@ -100,11 +119,18 @@ NOT_APPLICABLE = {
     # claimed in DESIGN.md, harness not finished yet (moved to checks as each lands):
     "C01": "PENDING: fpsim harness (pooled canonicaliser + map-order + concurrent callers) not yet built in this revision",
     "C10": "PENDING: clisim harness not yet built in this revision",
-    "C11": "PENDING: concurrent configuration of storesim not yet built in this revision",
     "C16": "PENDING: clisim fault-injection harness not yet built in this revision",
 }
 
 MANIFEST_TEXT = {
+    "C11": {
+        "engine": "storesim",
+        "technique": "deterministic simulation: tape-driven cooperative scheduler over real goroutines parked at every Pebble call and lock operation, linearizability of scans checked against the recorded sequence of committed states; plus race-detector stress",
+        "design_ref": "DESIGN.md §3 C11",
+        "level_text": ("Seeded search over interleavings of reader scans and writer mutations with the scheduler owning who runs next at ~200 yield points of the store; "
+                       "the committed states are totally ordered and recorded, so each scan is checked for equality with the sequential specification on some state in its invoke/return window."),
+        "level_note": "Trusts: the sequential scan specification, the recorded state timeline; Pebble-internal goroutines run freely.",
+    },
     "C13": {
         "engine": "llmsim",
         "technique": "deterministic simulation with fault injection: simulated HTTP provider and fake clock (testing/synctest), seeded response/fault scripts and hostile commit messages, fail-closed and envelope invariants checked on every run",
